@@ -8,7 +8,7 @@ V=$(cd "$(dirname "$0")/.." && pwd)
 export MELDA_REPO=$R
 cd $V
 test -f $R/Cargo.lock || cp /repo/Cargo.lock $R/
-SEEDS=${@:-$(ls seeded | grep -v RESULTS)}
+SEEDS=${@:-$(ls seeded | grep -v "RESULTS\|^_")}
 OUT=$V/seeded/RESULTS.tsv
 : > $OUT
 (cd lean && lake build mdrv >/dev/null 2>&1)
